@@ -9,7 +9,8 @@ import itertools
 import numpy as np
 from scipy.optimize import linear_sum_assignment
 
-from pbv.core import Borderline, Violation, require, subcheck
+from pbv.core import Borderline, Violation, require, require_close, subcheck
+from pbv.oracles import alignment as oa
 
 SUBCHECKS = []
 RULE = (
@@ -101,6 +102,51 @@ def _grid_choices():
         for is_float in (0, 1):
             for vals in itertools.product(range(3), repeat=K * K):
                 yield [['i', K, 1], ['i', is_float, 0], ['a', list(vals), 0]]
+
+
+@subcheck(SUBCHECKS, 'score_matrix_definition', quick=400, thorough=6000)
+def score_matrix_definition(d, ctx):
+    """the three similarity metrics as score[..., k_ref, k_est] (loop oracle),
+    for (K, F, T) and flattened (K, T) masks, through every access path of the
+    library: _ScoreMatrix.<metric> and _ScoreMatrix.from_name (the unused
+    private _calculate_score_matrix has no documented orientation and no
+    caller; it is not judged)"""
+    pa = _pa()
+    K = d.int(1, 5)
+    flat = d.bool()
+    F = 1 if flat else d.int(1, 6)
+    T = d.int(1, 12)
+    rng = d.rng()
+    kind = d.choice(['uniform', 'signed', 'small-integers'])
+    if kind == 'small-integers':
+        est = d.small_array((K, F, T), [0, 1, 2]).astype(float)
+        ref = d.small_array((K, F, T), [0, 1, 2]).astype(float)
+    else:
+        est = rng.uniform(-1 if kind == 'signed' else 0, 1, size=(K, F, T))
+        ref = rng.uniform(-1 if kind == 'signed' else 0, 1, size=(K, F, T))
+    metric = d.choice(['cos', 'euclidean', 'multiply'])
+    a, b = (est[:, 0], ref[:, 0]) if flat else (est, ref)
+    exp = np.empty((F, K, K))
+    for f in range(F):
+        e, r = est[:, f], ref[:, f]
+        if metric == 'cos':
+            e, r = oa.normalise(e), oa.normalise(r)
+        exp[f] = oa.score(e, r, metric)
+    if flat:
+        exp = exp[0]
+    ctx.describe(K=K, F=None if flat else F, T=T, metric=metric, values=kind)
+    ctx.label(metric, 'flat' if flat else '3d', kind)
+    paths = {
+        'attribute': lambda: getattr(pa._ScoreMatrix, metric)(a, b),
+        'from_name': lambda: pa._ScoreMatrix.from_name(metric)(a, b),
+    }
+    for name, fn in paths.items():
+        got = ctx.lib(fn)
+        require(np.shape(got) == exp.shape, 'score-matrix-shape',
+                f'{name}: {np.shape(got)} expected {exp.shape}', path=name)
+        require_close(got, exp, 'score-matrix-definition', rtol=1e-12, atol=1e-12,
+                      what=f'{name} {metric}', path=name, metric=metric)
+    ctx.nontrivial(K >= 2)
 
 
 @subcheck(SUBCHECKS, 'score_generated', quick=1500, thorough=25000)
